@@ -180,6 +180,16 @@ def gen(tier, rng):
                     body = D.render(D.obj(m), rng, plain=True) + " " * size
                 i += 1
                 out.append((http_line(variants[i % 2], kind, False, 200 if i % 3 else 400, CTS[1], body), "large-body"))
+    for kind in KINDS:
+        for size in (65537, 70000, 131073):
+            for st in (400, 401, 503):
+                if tier == "quick" and (size + st + len(kind)) % 2:
+                    continue
+                em = [("error", "invalid_grant"), ("error_description", "d" * size)] if size % 2 else [("error", "invalid_request"), ("error_uri", "https://e/" + "u" * size), ("padding", ["y"] * 8)]
+                i += 1
+                out.append((http_line(variants[i % 2], kind, False, st, CTS[1], D.render(D.obj(em), rng, plain=True)), "large-error-document"))
+                # ... and a large body that is no document at all: the parse error carries ALL of it
+                out.append((http_line(variants[i % 2], kind, False, st if i % 2 else 200, CTS[1], "<html>" + "x" * size), "large-unparsable-body"))
     # long Content-Type values (every length 1..200 around typical truncation points), ASCII, two-byte and
     # three-byte characters and opaque bytes, JSON and non-JSON media types: an error value, never a panic
     for kind in KINDS:
